@@ -24,6 +24,7 @@ through gaddlemaps' own parsers; `Alignment(start, end).align_molecules(...)` is
 import os
 
 import numpy as np
+from ..common import quiet as _quiet
 
 from ..common import fbits, hexs, unfbits, unhexs
 from .. import mcwrap
@@ -476,7 +477,7 @@ def run_alignment(start, end, case):
             ali.STEPS_FACTOR = 2
             np.random.seed(12345)
             import contextlib, io, warnings as _w
-            with np.errstate(all="ignore"), contextlib.redirect_stdout(io.StringIO()), _w.catch_warnings():
+            with _quiet(), contextlib.redirect_stdout(io.StringIO()), _w.catch_warnings():
                 _w.simplefilter("ignore")
                 ali.align_molecules(restrictions=None if case["restr"] is None else [tuple(r) for r in case["restr"]],
                                     deformation_types=None if case["deform"] is None else tuple(case["deform"]),
